@@ -554,20 +554,46 @@ def _filter_map_next(I, st, fid, bi, a, c, t):
     return None
 
 
+def _mutated_upvars(I, cid):
+    """indices of upvars the closure body assigns through (captured by &mut, or by value and mutated)"""
+    body = I.bodies.get(cid)
+    out = set()
+    if body is None:
+        return out
+    def scan(place):
+        pr = place['proj']
+        if place['l'] != 1:
+            return
+        for k, e in enumerate(pr):
+            if e['k'] == 'field' and e.get('adt', '').startswith('closure:'):
+                out.add(e['i'])
+                return
+    for blk in body['blocks']:
+        for s in blk['stmts']:
+            if s['k'] == 'assign':
+                scan(s['place'])
+                if s['rv']['k'] in ('ref', 'rawptr') and s['rv'].get('mut', True):
+                    scan(s['rv']['place'])
+        t = blk['term']
+        if t['k'] == 'call':
+            scan(t['dest'])
+    return out
+
+
 def _havoc_captures(I, st, clo):
+    """the implicit loop of an iterator adaptor may run the closure any number of times before the
+    iteration we analyse: locals it mutates through its captures become unknown"""
+    from .termflow import root_of
     if clo[0] == 'agg' and clo[1].startswith('closure:'):
+        mut = _mutated_upvars(I, clo[1][len('closure:'):])
         for name, up in clo[3]:
+            idx = int(name[len('upvar'):]) if name.startswith('upvar') else -1
+            if idx not in mut:
+                continue
             if up[0] == 'addr':
-                r = up[1]
-                from .termflow import root_of
-                rr = root_of(r)
-                if rr[0] == 'local':
-                    # only by-mutable-reference captures are written; we cannot tell here, so
-                    # widen scalars that the closure body assigns (cheap over-approximation:
-                    # widen every captured local that is not a reference to `self`/params)
-                    cur = st.env.get((rr[1], rr[2]))
-                    if cur is not None and cur[0] not in ('param', 'addr', 'layout', 'agg'):
-                        st.env[(rr[1], rr[2])] = I.fresh('captured:_%s' % rr[2])
+                rr = root_of(up[1])
+                if rr[0] == 'local' and (rr[1], rr[2]) in st.env:
+                    st.env[(rr[1], rr[2])] = I.fresh('captured:_%s' % rr[2])
 
 
 # ------------------------------------------------------------------ misc
